@@ -298,7 +298,9 @@ func (s *Session) step(st *State, in ssa.Instruction) bool {
 			k, so := elemKey(u.Elem())
 			s.heapSort(k, so)
 			if isStructLike(u.Elem()) {
-				fr.regs[x] = Select(Select(s.H(st, k, so), SArr(sl)), SIdx(sl, idx))
+				ref := Select(Select(s.H(st, k, so), SArr(sl)), SIdx(sl, idx))
+				st.assume(Ne(ref, TZero)) // struct-valued elements always exist
+				fr.regs[x] = ref
 			} else {
 				fr.regs[x] = &Loc{Key: k, Sort: so, Idx: []Term{SArr(sl), SIdx(sl, idx)}, Obj: u.Elem()}
 			}
